@@ -2,7 +2,7 @@
 CHECK = {'level': 'exploration',
  'rule': 'rapidcheck generates an abstract document (blocks, frames, scalars, loops, nested lists/tables, CIF 2.0 or CIF 1.1 repertoire) and an '
          'independent layout tape (whitespace, comments, delimiter per value, text-field fold/prefix encodings, keyword case, BOM); my own printer '
-         'renders it; non-trivial = >= 3 delimiter kinds, or a folded/prefixed text field, or a composite, or a non-BMP character; distinct = hash '
+         'renders it; 3% of the CIF 2.0 documents get an extra data block holding one token longer than the scanner's whole buffer (131200 units: text field, triple-quoted string, or a run of insignificant whitespace) between two marker items; non-trivial = >= 3 delimiter kinds, or a folded/prefixed text field, or a composite, or a non-BMP character; distinct = hash '
          'of the document bytes',
  'assumptions': ['the layout printer (harness/common/cifprint.cpp) implements the CIF 2.0/1.1 grammar and the text prefix / line-folding protocols '
                  'as specified',
@@ -10,7 +10,7 @@ CHECK = {'level': 'exploration',
  'min_evaluations': 300,
  'technique': 'property-based testing (rapidcheck): grammar-based document + layout generation, print/parse round-trip against an abstract model',
  'level_text': 'Generated search over content x layout with an exact model-equality oracle (dump through public getters), silent-callback and '
-               'default-handler checks, under ASan/UBSan. Bounded document sizes (<= ~20 kB quick); finds layout-dependent mis-parses for generated '
+               'default-handler checks, under ASan/UBSan. Bounded document sizes (<= ~20 kB quick, plus the 150-400 kB huge-token documents); finds layout-dependent mis-parses for generated '
                'combinations only.',
  'level_note': "Trusted: my printer's reading of the CIF grammar; dump()/model code; rapidcheck; sanitizers.",
  'engines': [{'src': 'pbt/C01_parse.cpp',
